@@ -81,7 +81,9 @@ def generate(rng, tier):
         spec = specs[i % len(specs)] if i < 5 * 20 else rng.choice(specs)
         kind = rng.choice(["ok", "ok", "ok", "ok", "missing", "invalid", "nonstr", "abs", "empty", "dotted", "dotted"])
         if i % 2:
-            spec = dict(spec, order="subs-first")        # the declaration order of include fields and sub-schemas is free
+            spec = dict(spec, order="subs-first")
+        if i % 3 == 0:
+            spec = dict(spec, tilde=True)        # start directories written with a leading ~ (HOME is the case's scratch root)        # the declaration order of include fields and sub-schemas is free
         # names as the document writes them: relative to the field's startdir
         good = ["f1.json", "f2.json", "g1.json", "g2.json", None]
         if kind == "dotted":
@@ -245,11 +247,15 @@ def _build(spec, root):
     # include fields first, then sub-schemas -- or the other way round (spec["order"])
     def incs():
         for (k, fid, sd) in spec["incs"]:
-            s._add_field(k, IncludeField(startdir=None if sd is None else os.path.join(root, sd)))
+            if sd is not None and spec.get("tilde"):
+                start = "~" if sd == "" else "~/" + sd
+            else:
+                start = None if sd is None else os.path.join(root, sd)
+            s._add_field(k, IncludeField(startdir=start))
 
     def subs():
         for (k, sub) in spec["subs"]:
-            s._add_field(k, _build(dict(sub, order=spec.get("order")), root))
+            s._add_field(k, _build(dict(sub, order=spec.get("order"), tilde=spec.get("tilde")), root))
     if spec.get("order") == "subs-first":
         subs()
         incs()
@@ -298,11 +304,14 @@ def impl(c):
         before = _marks(cfg)
         cwd = os.getcwd()
         os.chdir(os.path.join(root, "cwd"))
+        home = os.environ.get("HOME")
+        os.environ["HOME"] = root
         try:
             c["_table"] = _table(c, root)
             fname, fopts = _fmt(c)
             cfg.loads(_encode(c, doc), format=fname, **fopts)
             d = asdict(cfg)
+            c["_incvals"] = _incvals(c["spec"], d)
             # sub-configurations the document never mentions hold only their (None) include defaults
             obs = ("ok", sortd(_prune(c["spec"], _strip(c["spec"], d))))
         except ValidationError as e:
@@ -316,9 +325,25 @@ def impl(c):
             c["_unchanged"] = _marks(cfg) == before
         finally:
             os.chdir(cwd)
+            if home is None:
+                os.environ.pop("HOME", None)
+            else:
+                os.environ["HOME"] = home
     finally:
         shutil.rmtree(root, ignore_errors=True)
     return obs
+
+
+def _incvals(spec, d, pre=""):
+    """what every include field holds after the load, as the file's base name (the stored value is a resolved path)"""
+    out = {}
+    for (k, fid, sd) in spec["incs"]:
+        v = d.get(k) if isinstance(d, dict) else None
+        out[pre + k] = os.path.basename(v) if isinstance(v, str) else v
+    for (k, sub) in spec["subs"]:
+        if isinstance(d, dict) and isinstance(d.get(k), dict):
+            out.update(_incvals(sub, d[k], pre + k + "."))
+    return out
 
 
 def _prune(spec, d):
@@ -365,6 +390,13 @@ def oracle(c, obs):
             bad.append("load with resolvable includes failed: %r" % (obs,))
         elif obs[1] != want or repr(obs[1]) != repr(want):
             bad.append("loaded configuration differs from loading the deep-merged tree")
+        else:
+            # the include option itself is a key like any other: an included file that sets it wins
+            exp_inc = _incvals(c["spec"], _absolutise(exp[1], ""))
+            got_inc = {k: v for k, v in (c.get("_incvals") or {}).items() if k in exp_inc}
+            exp_cmp = {k: (os.path.basename(v) if isinstance(v, str) else v) for k, v in exp_inc.items() if k in (c.get("_incvals") or {})}
+            if c.get("_incvals") is not None and got_inc != exp_cmp:
+                bad.append("include option values after the load %r differ from the deep-merged tree's %r" % (got_inc, exp_cmp))
     else:
         if obs[0] == "ok":
             bad.append("load succeeded although an include file cannot be resolved")
